@@ -456,9 +456,9 @@ int _vnadata_load_npd(vnadata_internal_t *vdip, FILE *fp, const char *filename)
 		goto out;
 	    }
 	    if (strcmp(FIELD(&nss, 1), "1.0") != 0) {
-		_vnadata_error(vdip, VNAERR_SYNTAX, "%s (line %d) error: "
+		_vnadata_error(vdip, VNAERR_VERSION, "%s (line %d) error: "
 			"unsupported version %s",
-			nss.nss_filename, nss.nss_line, FIELD(&nss, 0));
+			nss.nss_filename, nss.nss_line, FIELD(&nss, 1));
 		goto out;
 	    }
 	    if (scan_line(&nss) == -1) {
